@@ -13,7 +13,7 @@ from mc.ref import shamir as R
 
 LEVEL = 'exploration'
 RULE = ('one case = (field, t, m, secret, dealer coefficient vector, subset of >= t+1 shares, recombination '
-        'point x_r, input form raw/field-element/scalar-x_r); every combination of the declared domains is '
+        'point x_r, input form raw/field-element/scalar-x_r/one-element-list); every combination of the declared domains is '
         'enumerated once; non-trivial = t >= 1 and the coefficient vector is non-zero')
 ASSUMPTIONS = [
     'mc/ref/fields.py + mc/ref/shamir.py (schoolbook GF(p^d) arithmetic, Lagrange interpolation) are correct',
@@ -31,7 +31,8 @@ MANIFEST = dict(
     text='Real random_split/recombine over GF(2),3,5,7,11,13,4,8 (two moduli),9 (two moduli),16,25,27 plus GF(256), '
     'GF(101), GF(2^61-1): all 0<=t<m<|F|, m<=6; all secrets x all |F|^t coefficient vectors (boundary alphabet '
     'above the limit / for the large fields) x all subsets of size t+1, t+2 and m x all recombination points in F '
-    '(0..m+2,|F|-2,|F|-1 for large fields) x raw/field-element/scalar call forms.  Oracle: shares equal the '
+    '(0..m+2,|F|-2,|F|-1 for large fields) x raw/field-element/scalar/one-element-list call forms; full coefficient '
+    'spaces up to |F|^t <= 10^4 (quick tier: <= 130, and boundary secrets / 0..m+2,|F|-2,|F|-1 for |F| > 16).  Oracle: shares equal the '
     'documented polynomial at i+1, recombination equals own Lagrange interpolation = polynomial value at x_r '
     '(secret at 0); exactly t fresh draws of bound |F| per secret.',
     ref='DESIGN 5/C12',
